@@ -21,16 +21,16 @@ allvars == <<calls, last, exposed, kind, backend, source, served, hist>>
 PlainBase == [logId |-> 1, prefix |-> "a", isReadonly |-> TRUE, privKey |-> "ok", isMirror |-> FALSE,
               start |-> TsAbsent, limit |-> TsAbsent, mmd |-> 0, expected |-> 0,
               rejectExpired |-> FALSE, rejectUnexpired |-> FALSE, ekus |-> "none",
-              backend |-> "trillian", connStr |-> ""]
+              backend |-> "trillian", connStr |-> ConnEmpty]
 Genuine == [ts |-> 1, size |-> 1, root |-> 1, sig |-> SigOf(1, 1, 1, 1), hashOk |-> TRUE]
 Frozen(f) == [f |-> f, pub |-> "k1", sthP |-> TRUE, sth |-> Genuine]
 Starts == {Frozen(PlainBase),                                                                  \* a frozen read-only log
            Frozen([PlainBase EXCEPT !.isMirror = TRUE, !.privKey = "absent", !.isReadonly = FALSE]),   \* a frozen mirror
            Frozen([PlainBase EXCEPT !.isReadonly = FALSE, !.start = Ts(1, 1), !.limit = Ts(1, 2), !.mmd = 10, !.expected = 5,
-                                    !.rejectExpired = TRUE, !.ekus = "known", !.backend = "ctfe", !.connStr = "mysql://ok",
+                                    !.rejectExpired = TRUE, !.ekus = "known", !.backend = "ctfe", !.connStr = ConnMysqlOK,
                                     !.prefix = "b"]),                                          \* every optional field in use
            Frozen([PlainBase EXCEPT !.rejectUnexpired = TRUE, !.limit = Ts(2, 0), !.mmd = 5, !.ekus = "any",
-                                    !.backend = "ctfe", !.connStr = "postgres://ok"])}        \* the other halves of the pairs
+                                    !.backend = "ctfe", !.connStr = ConnPgOK])}        \* the other halves of the pairs
 ASSUME \A p \in Starts, kt \in {"ecdsa", "rsa"} : Alone(p, kt) = <<TRUE, TRUE, TRUE>>
 
 (* ---------- neighbours: one component changed ---------- *)
@@ -40,7 +40,7 @@ Domain(x) ==
     [] x = "privKey" -> PrivKeyStates      [] x \in {"start", "limit"} -> TsStates
     [] x \in {"mmd", "expected"} -> DelayStates
     [] x = "ekus" -> EkuStates             [] x = "backend" -> BackendStates
-    [] x = "connStr" -> ConnStates         [] x = "pubKey" -> HPubStates
+    [] x = "connStr" -> ConnCore           [] x = "pubKey" -> HPubStates
     [] x \in {"sthTs", "sthSize", "sthRoot"} -> 1..2
     [] OTHER -> SigIds   \* sthSig
 GetC(p, x) ==
